@@ -66,11 +66,11 @@ def size_sweep_program(n):
 def campaign(c):
     c.rule = RULE
     import glob, os, re
-    for f in sorted(glob.glob('/repo/examples/*.rsyn')):
+    for f in sorted(glob.glob(core.REPO + '/examples/*.rsyn')):
         src = open(f, 'rb').read()
         files = {}
         for m in re.finditer(rb'io::file\(\s*"([^"]+)"', src):
-            p = os.path.join('/repo', m.group(1).decode())
+            p = os.path.join(core.REPO, m.group(1).decode())
             if os.path.exists(p): files[m.group(1).decode()] = open(p, 'rb').read()
         if files:
             continue   # paths relative to the repo root; covered by C05/C19 campaigns
